@@ -925,6 +925,7 @@ func coneSentinels(w *World, roots ...*Func) []string {
 }
 
 func runC14(c *Ctx) {
+	defer ruleStampAfterSuccess(c, "C14.19")
 	defer rulePrecheckChecksEveryRow(c, "C14.18")
 	defer ruleStoredBytesImmutable(c, "C14.17")
 	c14RowValidationFirst(c, "C14.1")
